@@ -174,10 +174,9 @@ class FakeClock:
             @classmethod
             def now(cls, tz=None):
                 clock.calls += 1
-                base = _dt.datetime.fromtimestamp(clock.t, _dt.timezone.utc)
-                if tz is None:
-                    return base.replace(tzinfo=None)
-                return base.astimezone(tz)
+                if tz is None:  # what the real datetime.now() returns: naive LOCAL wall-clock time (it steps back when daylight saving ends)
+                    return _dt.datetime.fromtimestamp(clock.t)
+                return _dt.datetime.fromtimestamp(clock.t, _dt.timezone.utc).astimezone(tz)
 
             @classmethod
             def utcnow(cls):
@@ -221,6 +220,27 @@ class FakeClock:
         self.mod.datetime = self.orig
         for name, val in self._saved.items():
             setattr(self.mod, name, val)
+
+    def next_fall_back(self, horizon_days=400):
+        """The next instant (s) at which this process's local wall clock is set back (end of daylight saving), or None."""
+        import time as _t
+
+        t0 = int(self.t)
+        prev = _t.localtime(t0)
+        step = 3600
+        for t in range(t0 + step, t0 + horizon_days * 86400, step):
+            cur = _t.localtime(t)
+            if cur.tm_gmtoff < prev.tm_gmtoff:
+                lo, hi = t - step, t
+                while hi - lo > 1:
+                    mid = (lo + hi) // 2
+                    if _t.localtime(mid).tm_gmtoff < prev.tm_gmtoff:
+                        hi = mid
+                    else:
+                        lo = mid
+                return hi
+            prev = cur
+        return None
 
     def advance(self, seconds):
         self.t += seconds
